@@ -3,6 +3,7 @@ package main
 import (
 	"go/token"
 	"sort"
+	"strings"
 
 	"golang.org/x/tools/go/ssa"
 )
@@ -207,7 +208,7 @@ func checkModTimeEqual(p *Prog, r *Report, rule string) {
 
 func checkRequestTable(p *Prog, r *Report) {
 	rule := "C12/REQUEST-TABLE"
-	r.Rule(rule, "paths of receiver.(*Transfer).recvGenerator (unknown conditions explored both ways): for a regular list entry the index is requested iff the destination is missing, is not regular, or skipFile says no; Lstat/skipFile errors abort; an error return is always acceptable", 8)
+	r.Rule(rule, "paths of receiver.(*Transfer).recvGenerator (unknown conditions explored both ways): for a regular list entry the index is requested iff the destination is missing (in a dry run also: a parent is not a directory yet, ENOTDIR), is not regular, or skipFile says no; Lstat/skipFile errors abort; an error return is always acceptable", 8)
 	fn := anchorFunc(p, r, pkgReceiver, "Transfer", "recvGenerator")
 	skip := anchorFunc(p, r, pkgReceiver, "Transfer", "skipFile")
 	lo := anchorFunc(p, r, pkgReceiver, "Transfer", "listOnly")
@@ -215,6 +216,7 @@ func checkRequestTable(p *Prog, r *Report) {
 	nameF := p.Field(pkgReceiver, "File", "Name")
 	pl := p.Field(pkgReceiver, "TransferOpts", "PreserveLinks")
 	pd := p.Field(pkgReceiver, "TransferOpts", "PreserveDevices")
+	dryF := p.Field(pkgReceiver, "TransferOpts", "DryRun")
 	if fn == nil || skip == nil || lo == nil || modeF == nil || pl == nil || pd == nil || len(fn.Params) != 3 {
 		r.Fatalf("anchor unresolved for %s", rule)
 		return
@@ -312,6 +314,14 @@ func checkRequestTable(p *Prog, r *Report) {
 			if calleeName(x) == "os.IsNotExist" && isLstat(x.Common().Args[0], 1) {
 				return "N", false, true
 			}
+			// errors.Is(err, syscall.ENOTDIR): a parent of the entry is not a directory (F28)
+			if calleeName(x) == "errors.Is" && len(x.Common().Args) == 2 && isLstat(x.Common().Args[0], 1) {
+				if mi, ok := x.Common().Args[1].(*ssa.MakeInterface); ok {
+					if k, ok := constInt(mi.X); ok && k == 20 && strings.HasSuffix(mi.X.Type().String(), "syscall.Errno") {
+						return "ND", false, true
+					}
+				}
+			}
 			if calleeName(x) == "(io/fs.FileMode).IsRegular" {
 				a := x.Common().Args[0]
 				if c, ok := a.(*ssa.Call); ok {
@@ -345,6 +355,9 @@ func checkRequestTable(p *Prog, r *Report) {
 			}
 			if isFieldLoad(x, pd) {
 				return "PD", false, true
+			}
+			if dryF != nil && isFieldLoad(x, dryF) {
+				return "DRYQ", false, true
 			}
 		case *ssa.Extract:
 			if isSkip(x, 0) {
@@ -438,6 +451,14 @@ func checkRequestTable(p *Prog, r *Report) {
 		}
 		if ask("N") {
 			return "request"
+		}
+		// in a dry run a parent that is not a directory (yet) counts as "missing":
+		// the real run would have replaced it; outside a dry run it is an error
+		if ask("?ND") && ask("ND") {
+			if ask("?DRYQ") && ask("DRYQ") {
+				return "request"
+			}
+			return "error"
 		}
 		if ask("LE") {
 			return "error"
